@@ -26,6 +26,7 @@ macro_rules! dispatch {
             "C14" => $f(&props::c14::C14, $($arg),*),
             "C15" => $f(&props::c15::C15, $($arg),*),
             "C16" => $f(&props::c16::C16, $($arg),*),
+            "C17" => $f(&props::c17::C17, $($arg),*),
             _ => { eprintln!("unknown property {}", $id); 2 }
         }
     };
